@@ -106,7 +106,7 @@ def run_C13(tier, seed, replay=None, procs=16):
         cfgs = [replay["detail"]["config"]]
     objs = FS.OBJECTIVES if full else ["none", "makespan", "flowtime", "max_expr", "min_bounded", "cost", "two_min"]
     if not replay:
-        ps = number(FS.pool(objs))
+        ps = number(FS.pool(objs) + FS.pool(["none", "makespan", "flowtime"], shapes=("buffer-final",)))
     V, st_enum = SE.prepare(ps)
     seqs = FIXED + spec_sequences(30 if full else 8, seed)
     cases = []
@@ -238,7 +238,7 @@ def run_C15(tier, seed, replay=None, procs=16):
     rng = random.Random(seed + 15)
     full = tier == "thorough"
     ps = number([replay["problem"]]) if replay else number(
-        FS.pool(["none", "makespan", "flowtime", "min_bounded", "max_bounded", "two_min", "two_max"],
+        FS.pool(["none", "makespan", "flowtime", "min_bounded", "max_bounded", "two_min", "two_max", "two_min_w0"],
                 shapes=("plain", "optional", "variable", "infeasible")))
     if not replay:
         # element names that coincide with names the library generates for its own z3 constants (legal: names only
@@ -311,7 +311,7 @@ def _infeasible_problems(full):
     pads = (0, 1, 3) if full else (0, 2)
     grid = list(itertools.product(("startat-endat", "precedence-cycle", "deadline-worker", "unavailable", "unavailable-2",
                                    "force-n", "buffer", "force-apply", "workload", "indicator-bounds",
-                                   "two-reasons", "two-reasons-shared"), pads, (False,)))
+                                   "two-reasons", "two-reasons-shared", "nested-before"), pads, (False,)))
     # the same conflicts with human-readable constraint names (spaces, punctuation, accents, a leading digit)
     grid += [(k, 0, True) for k in ("startat-endat", "deadline-worker", "unavailable", "force-apply", "two-reasons")]
     readable = {"k1": "règle n°1: début", "k2": "2nd rule (end, strict)", "k3": "rule 3 / other task", "k4": "4: fin"}
@@ -365,6 +365,14 @@ def _infeasible_problems(full):
             b.con("TaskStartAt", name="k1", task=a, value=1)
             b.con("TaskEndAt", name="k2", task=a, value=2)
             b.con("TaskEndAt", name="k3", task=a, value=4)
+        elif kind == "nested-before":
+            # a constraint that is only an operand (of Not) and an irrelevant one are declared BEFORE the conflicting pair
+            from problems import o_con
+            n0 = b.con("TaskStartAt", name="n0", task=c, value=3)
+            b.con("Not", name="n1", x=o_con(n0))
+            b.con("TaskPrecedence", name="extra", before=c, after=a, offset=0, kind="lax", optional=True)
+            b.con("TaskStartAt", name="k1", task=a, value=1)
+            b.con("TaskEndBefore", name="k2", task=a, value=2, kind="lax")
         elif kind == "force-n":
             b.con("OptionalTaskForceSchedule", name="k1", task=d, flag=True)
             b.con("TaskStartAt", name="k2", task=d, value=4)
@@ -398,20 +406,18 @@ def run_C19(tier, seed, replay=None, procs=16):
             for mode, prio, kw in MODES[:2]:
                 if not p["objs"] and mode == "optimize":
                     continue
+                # (the diagnosis must be the same when the model was exported / initialised before solving)
                 cases.append(dict(problem=p, solver_kw=dict(kw, debug=dbg), mode=mode, priority=prio, tracked=[("start", 1)],
-                                  sequences=[[("solve",)]], keep_stdout=dbg))
+                                  sequences=[[("solve",)], [("export",), ("solve",)]] if dbg and mode == "incremental" else [[("solve",)]],
+                                  keep_stdout=dbg))
     res = SE.run_cases(cases, V, procs=procs)
     viol = SE.violations(res, "C19", accept_props={"C13", "C07"})
     # the diagnosis: names printed after "->" when the verdict is "no solution"
     subs, owners = [], []
     n_diag = 0
-    for c, o in zip(res["cases"], res["outs"]):
+    pairs = [(c, o, r) for c, o in zip(res["cases"], res["outs"]) if not o["error"] and c["solver_kw"].get("debug") for r in o["runs"]]
+    for c, o, r in pairs:
         p = c["problem"]
-        if o["error"] or not c["solver_kw"].get("debug") or c["mode"] != "incremental" and p["objs"]:
-            pass
-        if o["error"] or not c["solver_kw"].get("debug"):
-            continue
-        r = o["runs"][0]
         rets = [e for e in r["events"] if e["e"] == "ret"]
         if not rets or rets[-1]["w"] != 0 or "Unsatisfied constraints" not in r["stdout"]:
             continue
